@@ -3,7 +3,7 @@
 CHECKS = {}
 NOT_APPLICABLE = {}
 # properties whose checks have been run end-to-end by the orchestrator and are registered in MANIFEST.json
-READY = ["C01", "C02", "C03", "C04", "C07", "C08", "C09", "C10", "C11", "C12", "C13", "C15", "C17", "C19"]
+READY = ["C01", "C02", "C03", "C04", "C05", "C06", "C07", "C08", "C09", "C10", "C11", "C12", "C13", "C15", "C16", "C17", "C18", "C19"]
 ENGINES = [
     {"name": "codec", "path": "engines/codec", "serves_properties": ["C05", "C06", "C07", "C10", "C11", "C12"],
      "kind_free_text": "bounded-exhaustive enumeration of finite input domains / BFS over operation histories of the real codec objects against exact-arithmetic reference models"},
@@ -40,3 +40,48 @@ for _f in sorted(_glob.glob(_os.path.join(_os.path.dirname(__file__), "checks_*.
     CHECKS.update(getattr(_m, "CHECKS", {}))
     ENGINES.extend(getattr(_m, "ENGINES", []))
     NOT_APPLICABLE.update(getattr(_m, "NOT_APPLICABLE", {}))
+
+
+# ---- C20 is assembled from the engines that own an untrusted interface each ----
+def _assemble_c20():
+    runs, rules, assumptions = [], [], []
+    try:
+        from .checks_busmc import C20_BUS_RUN
+        runs.append(C20_BUS_RUN)
+        rules.append("bus: every sequence of 7 (thorough 8-9) events over {SYN, A9, 00, 01, FF, 10, 36, FE, 05, silence, [long silence], "
+                     "[read error], corrupted/lost echo} fed to the real handler + plain/enhanced device in 5 configurations (passive, SYN "
+                     "generator, answering, pending requests, device faults), followed by a fixed probe telegram that must still be reported; "
+                     "ASan/UBSan, leak and step-budget oracle; state-hashed (validated fingerprint)")
+    except ImportError:
+        pass
+    try:
+        from .checks_cmdA import C20_CMD_RUNS, C20_CMD_RULE, C20_CMD_ASSUMPTIONS
+        runs.extend(C20_CMD_RUNS)
+        rules.append(C20_CMD_RULE)
+        assumptions.extend(C20_CMD_ASSUMPTIONS)
+    except ImportError:
+        pass
+    try:
+        from .checks_enhA import C20_ENH_RUNS
+        runs.extend(C20_ENH_RUNS)
+        rules.append("adapter: the C14 stream x chunking enumeration over a wider adapter byte alphabet (undefined commands, info frames "
+                     "beyond the info buffer, reset/error frames) under ASan/UBSan with a well-formed suffix that must still decode")
+    except ImportError:
+        pass
+    if not runs:
+        return
+    CHECKS["C20"] = {
+        "engine": "busmc+cmdmc+enhmc", "design_ref": "5/C20",
+        "level": "exploration",
+        "level_text": "bounded-exhaustive (not coverage-guided, not sampled) enumeration of inputs on each untrusted interface - bus symbols / "
+                      "adapter frames, command lines and HTTP requests, CSV definition text - executed on sanitizer-instrumented real code; "
+                      "the oracle is the sanitizer, signals, an alarm/step budget, leak counters and a fixed probe that must still be answered",
+        "level_note": "'arbitrary bytes' is covered only up to the stated alphabets and lengths; exhaustive refers to that bounded space",
+        "technique": "bounded-exhaustive input enumeration with sanitizer oracle (bus part: state-hashed exploration of the closed bus world)",
+        "rule": " | ".join(rules),
+        "assumptions": assumptions + ["alphabets and length bounds as stated in the rule; gcc ASan + UBSan; libstdc++ assertions on for the command part"],
+        "runs": runs,
+    }
+
+
+_assemble_c20()
